@@ -192,7 +192,8 @@ def run_case(case: Dict) -> CaseResult:
         return compare_all(i)
 
     try:
-        d.run(after_reset=after_reset, after_step=after_step, before_step=before_step)
+        d.run(after_reset=after_reset, after_step=after_step, before_step=before_step,
+              after_req=lambda i, op: compare_all(i))
     finally:
         _HOOK["game"] = None
         reqtrace.stop()
@@ -235,6 +236,25 @@ def masked_gen_case(draw, max_ops=25):
         if idx:
             case["ops"] = [["step", idx[0]], ["idle", case["spec"]["zones"][zi][hi]["up"] + 1]] + case["ops"]
             case["spec"]["max_len"] = max(case["spec"]["max_len"], 12)
+    elif draw(st_.integers(0, 1)) == 0:
+        # a folder is deleted (by a direct request: no defender action does that) and a folder of the same name is created
+        # again: a deleted namesake now sits next to the live folder, whose own actions must stay available
+        from .. import gen_scenario
+
+        _, meta = gen_scenario.build(case["spec"])
+        hs = [h for h in meta["hosts"] if not h.get("off")]
+        if hs:
+            h = hs[draw(st_.integers(0, len(hs) - 1))]
+
+            def idx(action):
+                return next((i for i, a in enumerate(meta["actions"]) if a["action"] == action
+                             and a["options"].get("node_name") == h["name"] and a["options"].get("folder_name") == "docs"), None)
+
+            mk, again = idx("node-file-create"), idx(draw(st_.sampled_from(["node-folder-create", "node-file-create"])))
+            if mk is not None and again is not None:
+                case["ops"] = [["step", mk], ["req", ["network", "node", h["name"], "file_system", "delete", "folder", "docs"]],
+                               ["step", again]] + case["ops"]
+                case["spec"]["max_len"] = max(case["spec"]["max_len"], 12)
     return case
 
 
